@@ -148,6 +148,26 @@ pub fn generate(input: &BgInput, dir: &Path) -> BgResult {
 #[derive(Debug)]
 struct Renamer {
     mode: &'static str,
+    /// keyword renames are handed out once each, so that the callback stays injective
+    used: Mutex<std::collections::BTreeMap<String, String>>,
+}
+
+impl Renamer {
+    fn rename(&self, mode: &str, name: &str) -> Option<String> {
+        if mode != "keyword" {
+            return rename(mode, name);
+        }
+        let kw = rename(mode, name)?;
+        let mut used = self.used.lock().unwrap();
+        match used.get(&kw) {
+            Some(owner) if owner == name => Some(kw),
+            Some(_) => None,
+            None => {
+                used.insert(kw.clone(), name.to_string());
+                Some(kw)
+            }
+        }
+    }
 }
 
 fn rename(mode: &str, name: &str) -> Option<String> {
@@ -170,14 +190,33 @@ fn rename(mode: &str, name: &str) -> Option<String> {
 
 impl bindgen::callbacks::ParseCallbacks for Renamer {
     fn item_name(&self, info: bindgen::callbacks::ItemInfo) -> Option<String> {
+        // modules keep their names (the root module is referred to as `root` by bindgen itself)
+        if matches!(info.kind, bindgen::callbacks::ItemKind::Module) {
+            return None;
+        }
         if self.mode.starts_with("item:") {
-            rename(&self.mode[5..], info.name)
+            self.rename(&self.mode[5..], info.name)
         } else {
             None
         }
     }
     fn field_name(&self, info: bindgen::callbacks::FieldInfo<'_>) -> Option<String> {
         if self.mode.starts_with("field:") {
+            // per-struct scope: key the keyword hand-out by (type, field)
+            if &self.mode[6..] == "keyword" {
+                // one owner per (type, keyword): two fields of a struct never get the same name
+                let kw = rename("keyword", info.field_name)?;
+                let slot = format!("{}::{kw}", info.type_name);
+                let mut used = self.used.lock().unwrap();
+                return match used.get(&slot) {
+                    Some(owner) if owner == info.field_name => Some(kw),
+                    Some(_) => None,
+                    None => {
+                        used.insert(slot, info.field_name.to_string());
+                        Some(kw)
+                    }
+                };
+            }
             rename(&self.mode[6..], info.field_name)
         } else {
             None
@@ -190,14 +229,14 @@ impl bindgen::callbacks::ParseCallbacks for Renamer {
         _v: bindgen::callbacks::EnumVariantValue,
     ) -> Option<String> {
         if self.mode.starts_with("variant:") {
-            rename(&self.mode[8..], original)
+            self.rename(&self.mode[8..], original)
         } else {
             None
         }
     }
     fn generated_name_override(&self, info: bindgen::callbacks::ItemInfo<'_>) -> Option<String> {
         if self.mode.starts_with("fnvar:") {
-            rename(&self.mode[6..], info.name)
+            self.rename(&self.mode[6..], info.name)
         } else {
             None
         }
@@ -237,7 +276,7 @@ pub fn install_callback(b: bindgen::Builder, name: &str) -> Result<bindgen::Buil
         "fnvar:suffix",
     ];
     if let Some(m) = MODES.iter().find(|m| **m == name) {
-        return Ok(b.parse_callbacks(Box::new(Renamer { mode: m })));
+        return Ok(b.parse_callbacks(Box::new(Renamer { mode: m, used: Mutex::new(Default::default()) })));
     }
     Err(format!("unknown callback {name}"))
 }
